@@ -161,7 +161,9 @@ def vocab(level):
             v.append(("key", k))
         for i in (0, 1, 2, -1, -2):
             v.append(("idx", i))
-        for a, b in ((0, 1), (0, 2), (1, 2), (1, 1), (0, 0), (-1, -1)):
+        for a, b in ((0, 1), (0, 2), (1, 2), (1, 1), (0, 0), (-1, -1),
+                     (-2, 3), (0, -1), (-1, 0), (1, -1), (-3, 2), (2, 1),
+                     (-2, -1), (-5, 2), (1, 9)):
             v.append(("slice", a, b))
         v.append(("slice", "a", "b"))
         v.append(("slice", "a", "a"))
